@@ -630,3 +630,80 @@ Proof.
       split; [exact (inv_lim _ _ _ _ I Hp0 Ha0)|]. intros; lia.
     + unfold close_events, is_in, is_out. rewrite Htr. reflexivity.
 Qed.
+
+(** in a reachable state the refund of an open contract never fails and has the closing shape *)
+Lemma refund_complete s id c : Inv s -> get id (st_contracts s) = Some c -> c_state c = Open ->
+  close_rel s (dequeue (refund s id c) (c_exp c) id) id c Refunded.
+Proof.
+  intros I Hg Ho.
+  destruct (inv_wfc _ I _ _ (get_In _ _ _ Hg)) as (Hid & Hpos & Hs1 & Hs2 & Ht1 & Ht2 & Hkind).
+  assert (Hbl : blocked (c_sender c) = false) by (unfold blocked; apply Z.eqb_neq; exact Hs2).
+  assert (Hescto : (ESC =? c_sender c) = false) by (apply Z.eqb_neq; congruence).
+  assert (Hne : ESC <> c_sender c) by congruence.
+  unfold refund. cbv zeta. destruct (c_transfer c) eqn:Htr.
+  - destruct Hkind as [(d & x & Ham & Hpn) Hdir].
+    destruct (get_param (st_params s) d) as [p|] eqn:Hp; [clear Hpn|congruence].
+    destruct (inv_asset _ I d p Hp) as (a & Ha & Hain & Haout & Hacur & Hasup & (L1 & L2 & L3 & L4) & Hawin).
+    destruct (in_out_ge _ _ _ d p a I Hg Hp Ha) as [Gin Gout].
+    pose proof (esc_ge _ _ _ d I Hg) as Gesc.
+    assert (Hx : 0 < x) by (rewrite Ham in Hpos; inversion Hpos; assumption).
+    unfold w_in, w_out, w_esc, locksb, is_in, is_out, openb, amt in Gin, Gout, Gesc.
+    rewrite Ho, Htr, Ham in Gin, Gout, Gesc. cbn in Gin, Gout, Gesc. rewrite Z.eqb_refl in Gin, Gout, Gesc.
+    rewrite Ham.
+    destruct (c_dir c) eqn:Hd; [congruence| |].
+    + cbn in Gin.
+      assert (F1 : dec_incoming x p a = Some (mkAS (as_in a - x) (as_out a) (as_cur a) (as_tlc a) (as_el a))).
+      { unfold dec_incoming. replace (as_in a - x <? 0) with false by (symmetry; apply Z.ltb_ge; lia). reflexivity. }
+      rewrite (with_asset_ok _ _ _ _ _ _ Ha Hp F1).
+      unfold dequeue, set_contract. constructor; sproj; try reflexivity; try assumption; try discriminate.
+      * intros d0. unfold w_esc, locksb, is_out. rewrite Htr, Hd. cbn. rewrite andb_false_r. lia.
+      * intros d0 p0 a0 Hp0 Ha0. rewrite !get_set.
+        unfold w_in, w_out, w_cur, complb, is_in, is_out, openb, amt. cbn. rewrite Ho, Htr, Hd, Ham. cbn.
+        destruct (eq_dec d0 d) as [->|Hdd].
+        -- rewrite Hp in Hp0. rewrite Ha in Ha0. inversion Hp0; inversion Ha0; subst p0 a0.
+           eexists. split; [reflexivity|]. rewrite !Z.eqb_refl. unfold lim_ok. cbn.
+           split; [lia|]. split; [lia|]. split; [lia|]. split; [lia|].
+           split; [split; [lia|]; split; [lia|]; split; [lia|]; intros Htl; pose proof (L4 Htl); lia|]. intros; lia.
+        -- exists a0. split; [exact Ha0|].
+           replace (d =? d0) with false by (symmetry; apply Z.eqb_neq; congruence).
+           split; [lia|]. split; [lia|]. split; [lia|]. split; [lia|].
+           split; [exact (inv_lim _ _ _ _ I Hp0 Ha0)|]. intros; lia.
+      * unfold close_events, locksb, is_out. rewrite Htr, Hd. cbn. reflexivity.
+    + cbn in Gout, Gesc.
+      assert (F1 : dec_outgoing x p a = Some (mkAS (as_in a) (as_out a - x) (as_cur a) (as_tlc a) (as_el a))).
+      { unfold dec_outgoing. replace (as_out a - x <? 0) with false by (symmetry; apply Z.ltb_ge; lia). reflexivity. }
+      rewrite (with_asset_ok _ _ _ _ _ _ Ha Hp F1).
+      unfold pay_out. rewrite Hbl. sproj.
+      destruct (send_coins_ok [(d, x)] (st_bank s) ESC (c_sender c) Hne) as [l' Hsend].
+      { rewrite <- Ham. exact Hpos. }
+      { intros d0. cbn. destruct (Z.eqb_spec d d0) as [->|Hdd]; [lia|]. pose proof (esc_nonneg _ d0 I). lia. }
+      rewrite Hsend.
+      unfold dequeue, set_contract, set_bank_log. constructor; sproj; try reflexivity; try assumption; try discriminate.
+      * intros d0. rewrite (send_coins_bal _ _ _ _ _ Hne Hsend ESC d0). rewrite Z.eqb_refl, Hescto.
+        unfold w_esc, locksb, is_out, openb, amt. rewrite Ho, Htr, Hd, Ham. cbn. lia.
+      * intros d0 p0 a0 Hp0 Ha0. rewrite !get_set.
+        unfold w_in, w_out, w_cur, complb, is_in, is_out, openb, amt. cbn. rewrite Ho, Htr, Hd, Ham. cbn.
+        destruct (eq_dec d0 d) as [->|Hdd].
+        -- rewrite Hp in Hp0. rewrite Ha in Ha0. inversion Hp0; inversion Ha0; subst p0 a0.
+           eexists. split; [reflexivity|]. rewrite !Z.eqb_refl. unfold lim_ok. cbn.
+           split; [lia|]. split; [lia|]. split; [lia|]. split; [lia|].
+           split; [split; [lia|]; split; [lia|]; split; [lia|]; exact L4|]. intros; lia.
+        -- exists a0. split; [exact Ha0|].
+           replace (d =? d0) with false by (symmetry; apply Z.eqb_neq; congruence).
+           split; [lia|]. split; [lia|]. split; [lia|]. split; [lia|].
+           split; [exact (inv_lim _ _ _ _ I Hp0 Ha0)|]. intros; lia.
+      * unfold close_events, locksb, is_out. rewrite Htr, Hd, Ham. cbn. reflexivity.
+  - unfold pay_out. rewrite Hbl.
+    destruct (send_coins_ok (c_amount c) (st_bank s) ESC (c_sender c) Hne Hpos) as [l' Hsend].
+    { intros d0. pose proof (esc_ge _ _ _ d0 I Hg) as G. unfold w_esc, locksb, openb, amt in G.
+      rewrite Ho, Htr in G. exact G. }
+    rewrite Hsend.
+    unfold dequeue, set_contract, set_bank_log. constructor; sproj; try reflexivity; try assumption; try discriminate.
+    + intros d0. rewrite (send_coins_bal _ _ _ _ _ Hne Hsend ESC d0). rewrite Z.eqb_refl, Hescto.
+      unfold w_esc, locksb, openb, amt. rewrite Ho, Htr. cbn. lia.
+    + intros d0 p0 a0 Hp0 Ha0. exists a0. split; [exact Ha0|].
+      unfold w_in, w_out, w_cur, complb, is_in, is_out. cbn. rewrite Htr. cbn. rewrite !andb_false_r.
+      split; [lia|]. split; [lia|]. split; [lia|]. split; [lia|].
+      split; [exact (inv_lim _ _ _ _ I Hp0 Ha0)|]. intros; lia.
+    + unfold close_events, locksb. rewrite Htr. reflexivity.
+Qed.
